@@ -177,8 +177,8 @@ META = dict(
                 "valid Exchange MTU Request only and is always >= 23 (invariant over any request sequence).",
     assumptions=["handlers other than Exchange MTU enter l2cap_input by the contract '*out_size is not increased' (proved for the handlers under "
                  "contract in C01, assumed for the rest)",
-                 "notifications / indications: server::l2cap_output fills the buffer the link layer hands it; that the link layer sizes that buffer "
-                 "by the negotiated MTU is outside this unit (suspected defect F-C08 of DESIGN.md 9 is NOT decided here)",
+                 "notifications / indications: server::l2cap_output limits the PDU to the negotiated MTU itself (postcondition of unit l2cap_output; F-C08, fixed) whatever the size "
+                 "of the buffer the L2CAP layer hands it",
                  "maximum_channel_mtu_size is max_mtu_size<N>::mtu selected by find_by_meta_type (type level), symbolic here"],
     trusted_base=[],
 )
